@@ -40,14 +40,10 @@ Qed.
 
 (* ------------------------------------------------------------------ the two step lemmas in the form the induction asks for *)
 Lemma join_keys_clean_facts ca cb on_a on_b : join_keys_clean ca cb on_a on_b = true ->
-  (forall c, In c on_a -> In c ca) /\ (forall c, In c on_b -> In c cb) /\ List.length on_a = List.length on_b /\
-  (forall a b, In (a, b) (combine on_a on_b) -> In a cb -> a = b).
+  (forall c, In c on_a -> In c ca) /\ (forall c, In c on_b -> In c cb) /\ List.length on_a = List.length on_b.
 Proof.
-  unfold join_keys_clean. intros H. apply andb_true_iff in H. destruct H as [H Hc]. apply andb_true_iff in H. destruct H as [H Hl].
-  apply andb_true_iff in H. destruct H as [Ha Hb]. split; [apply subset_spec, Ha|]. split; [apply subset_spec, Hb|]. split; [apply Nat.eqb_eq, Hl|].
-  intros a b I Ia. apply (proj1 (forallb_forall _ _) Hc) in I. cbn [fst snd] in I. apply orb_true_iff in I. destruct I as [I|I].
-  - apply negb_true_iff, mem_false in I. contradiction.
-  - apply String.eqb_eq, I.
+  unfold join_keys_clean. intros H. apply andb_true_iff in H. destruct H as [H Hl].
+  apply andb_true_iff in H. destruct H as [Ha Hb]. split; [apply subset_spec, Ha|]. split; [apply subset_spec, Hb|apply Nat.eqb_eq, Hl].
 Qed.
 
 Lemma join_step_holds : true = true -> forall p a b on_a on_b jt l r x,
@@ -55,14 +51,13 @@ Lemma join_step_holds : true = true -> forall p a b on_a on_b jt l r x,
   width_ok l -> width_ok r -> same_set (cols l) (column_names a) -> same_set (cols r) (column_names b) ->
   join_keys_clean (column_names a) (column_names b) on_a on_b = true ->
   px_join (declared_cols p) on_a on_b jt l r = Some x ->
-  refines x (sem_join true on_a on_b jt l r) /\ width_ok x.
+  refines x (sem_join false on_a on_b jt l r) /\ width_ok x.
 Proof.
   intros _ p a b on_a on_b jt l r x -> Wl Wr Sl Sr Jc H.
-  destruct (join_keys_clean_facts _ _ _ _ Jc) as [Ha [Hb [Hlen Hcl]]].
+  destruct (join_keys_clean_facts _ _ _ _ Jc) as [Ha [Hb Hlen]].
   apply (px_join_refines (declared_cols (OJoin a b on_a on_b jt)) on_a on_b jt l r x Wl Wr); try assumption.
   - intros c I. apply Sl, Ha, I.
   - intros c I. apply Sr, Hb, I.
-  - intros a0 b0 I Ir. apply (Hcl a0 b0 I). apply Sr, Ir.
   - cbn [declared_cols]. eapply same_set_trans; [apply join_declared_set|]. eapply same_set_trans; [|apply same_set_sym, same_set_union_form].
     apply same_set_app; (eapply same_set_trans; [apply declared_same_set|apply same_set_sym; assumption]).
 Qed.
@@ -217,23 +212,25 @@ Qed.
 Theorem join_coalesce declared on_a on_b jt l r x :
   width_ok l -> width_ok r ->
   (forall c, In c on_a -> In c (cols l)) -> (forall c, In c on_b -> In c (cols r)) -> List.length on_a = List.length on_b ->
-  (forall a b, In (a, b) (combine on_a on_b) -> In a (cols r) -> a = b) ->
   same_set declared (cols l ++ filter (fun c => negb (mem c (cols l))) (cols r)) ->
   px_join declared on_a on_b jt l r = Some x ->
   forall row, In row (rows x) ->
-    exists p, In p (sem_pairs (key_of (cols l) on_a) (key_of (cols r) on_b) (how_of jt) (rows l) (rows r)) /\
+    exists p, In p (sem_pairs (join_match false (cols l) (cols r) on_a on_b) (how_of jt) (rows l) (rows r)) /\
               (forall ra, fst p = Some ra -> In ra (rows l)) /\ (forall rb, snd p = Some rb -> In rb (rows r)) /\
+              (forall ra rb, fst p = Some ra -> snd p = Some rb -> join_match false (cols l) (cols r) on_a on_b ra rb = true) /\
               forall c, In c (cols l) \/ In c (cols r) -> get (cols x) row c = sem_cell (cols l) (cols r) p c.
 Proof.
-  intros Wl Wr Ha Hb Hlen Hcl Sd H row Irow.
-  destruct (px_join_refines declared on_a on_b jt l r x Wl Wr Ha Hb Hlen Hcl Sd H) as [[v [[Sc F] [C P]]] _].
+  intros Wl Wr Ha Hb Hlen Sd H row Irow.
+  destruct (px_join_refines declared on_a on_b jt l r x Wl Wr Ha Hb Hlen Sd H) as [[v [[Sc F] [C P]]] _].
   rewrite sem_join_as_pairs in C, P. cbn [cols rows] in C, P.
   destruct (Forall2_In_l _ _ _ _ F Irow) as [row' [Irow' Rr]].
   apply (Permutation_in _ P) in Irow'. apply in_map_iff in Irow'. destruct Irow' as [p [Ep Ip]]. exists p. split; [exact Ip|].
-  destruct (sem_pairs_from _ _ _ _ _ _ Ip) as [Fa [Fb _]]. split; [exact Fa|]. split; [exact Fb|].
-  intros c Ic. rewrite (Rr c), C, <- Ep. unfold sem_mk. rewrite (get_map_cols (fun c0 => sem_cell (cols l) (cols r) p c0)).
-  replace (mem c (cols l ++ filter (fun c0 => negb (mem c0 (cols l))) (cols r))) with true; [reflexivity|].
-  symmetry. apply mem_In. apply (proj2 (same_set_union_form (cols l) (cols r) c)). apply in_app_iff. exact Ic.
+  destruct (sem_pairs_from _ (fun _ => []) (fun _ => []) _ _ _ _ Ip) as [Fa [Fb _]]. split; [exact Fa|]. split; [exact Fb|]. split.
+  - intros ra rb Ea Eb. destruct p as [oa ob]. cbn [fst snd] in Ea, Eb. subst oa ob.
+    apply (sem_pairs_matched _ (fun _ => []) (fun _ => []) _ _ _ _ _ Ip).
+  - intros c Ic. rewrite (Rr c), C, <- Ep. unfold sem_mk. rewrite (get_map_cols (fun c0 => sem_cell (cols l) (cols r) p c0)).
+    replace (mem c (cols l ++ filter (fun c0 => negb (mem c0 (cols l))) (cols r))) with true; [reflexivity|].
+    symmetry. apply mem_In. apply (proj2 (same_set_union_form (cols l) (cols r) c)). apply in_app_iff. exact Ic.
 Qed.
 
 (* ------------------------------------------------------------------ the scratch names of the three steps *)
@@ -275,10 +272,13 @@ Lemma join_scratch_fresh (left right : table) :
   let names := set_union (cols left) (cols right) in
   let common := set_inter (cols left) (cols right) in
   (forall c, In c common -> ~ In (sapp c (right_suffix common names)) (cols left) /\ ~ In (sapp c (right_suffix common names)) (cols right)) /\
-  ~ In (unused_column_name base_merge_col names) (cols left) /\ ~ In (unused_column_name base_merge_col names) (cols right).
+  (~ In (unused_column_name base_merge_col names) (cols left) /\ ~ In (unused_column_name base_merge_col names) (cols right)) /\
+  (~ In (unused_column_name base_null_key names) (cols left) /\ ~ In (unused_column_name base_null_key names) (cols right)).
 Proof.
-  cbv zeta. split; [|split].
+  cbv zeta. split; [|split; split].
   - intros c Ic. pose proof (right_suffix_fresh _ (set_union (cols left) (cols right)) c Ic) as F. split; intros I; apply F, In_set_union; [left|right]; exact I.
   - intros I. apply (unused_column_name_fresh base_merge_col (set_union (cols left) (cols right))), In_set_union. left. exact I.
   - intros I. apply (unused_column_name_fresh base_merge_col (set_union (cols left) (cols right))), In_set_union. right. exact I.
+  - intros I. apply (unused_column_name_fresh base_null_key (set_union (cols left) (cols right))), In_set_union. left. exact I.
+  - intros I. apply (unused_column_name_fresh base_null_key (set_union (cols left) (cols right))), In_set_union. right. exact I.
 Qed.
